@@ -637,6 +637,9 @@ func (l *Line) writeHex(value byte) {
 func (l *Line) ByteArray(name string, value []byte) *Line {
 	truncated := false
 	rem := cap(l.buffer) - l.index - 1 - len(name) - 2
+	if rem < len("TRUNCATED ")+3 && rem <= len(value)*3 { // not even one byte and the marker fit: skip the field
+		return l
+	}
 	if rem <= len(value)*3 { // each byte occupies 3 characters
 		copy(l.buffer[cap(l.buffer)-len("TRUNCATED "):], []byte("TRUNCATED "))
 		rem = rem - len("TRUNCATED ")
